@@ -40,9 +40,12 @@ def run(c):
     c.prove("SH.Props.C30", extra_files=["SH/Model/Access.lean", "SH/Gen/C30.lean"])
     drv = c.driver(DRIVER)
     if binary and drv:
-        rc, out = c.go_run(binary, [f"-n={c.n(4000, 150000)}"])
-        c.harness_ok(rc, out, "verif-c30")
-        c.correspond(out, drv)
+        # thorough: 5 chunks of 40000 cases with seeds derived from VERIF_SEED (keeps the text held in memory small)
+        for k in range(c.n(1, 5)):
+            rc, out = c.go_run(binary, [f"-n={c.n(12000, 40000)}", f"-seed={c.seed + 7919 * k}"])
+            c.harness_ok(rc, out, "verif-c30")
+            c.correspond(out, drv)
+            del out
 
     def search():
         if not binary:
@@ -70,7 +73,7 @@ META = {
              "every generated token and policy query on the real functions and on the compiled model and diffing verdicts, error masks, "
              "granted sets and decisions."),
     "note": ("Partial: Ed25519 and golang-jwt's base64/JSON decoding are trusted (signature validity and the decoded header/claims are "
-             "inputs of the model). Trusted: Lean kernel; the correspondence on generated cases (quick 4000, thorough 150000). "
+             "inputs of the model). Trusted: Lean kernel; the correspondence on generated cases (quick 12000, thorough 5 x 40000). "
              "Finding outside the property: a correctly signed token WITHOUT exp makes Claims.Valid panic (nil dereference) instead of "
              "returning an error - the token is not accepted, so the property holds; the model reproduces the panic."),
     "design_ref": "DESIGN.md §6 C30",
